@@ -6,13 +6,13 @@ From IsoTp Require Import Base.Prelude Model.Layer.
 
 (** Reception view: everything _process_rx, _check_timeouts_rx and recv() read or write. *)
 Definition rxv (s : layer) :=
-  (rx_state s, rx_buffer s, rx_frame_length s, last_seqnum s, rx_block_counter s, actual_rxdl s,
+  (now s, rx_state s, rx_buffer s, rx_frame_length s, last_seqnum s, rx_block_counter s, actual_rxdl s,
    timer_rx_cf s, rx_queue s, pending_fc s, pending_fc_status s).
 
 (** Transmission view: everything the transmit state machine and send() read or write,
     except the flow-control mailbox. *)
 Definition txv (s : layer) :=
-  (tx_state s, tx_queue s, active s, tx_standby s, remote_bs s, tx_block_counter s, tx_seqnum s,
+  (now s, tx_state s, tx_queue s, active s, tx_standby s, remote_bs s, tx_block_counter s, tx_seqnum s,
    wft_counter s, tx_frame_length s, timer_rx_fc s, timer_tx_stmin s,
    lim_times s, lim_bits s, lim_total s, next_req_id s).
 
